@@ -100,7 +100,7 @@ DTypedOk(r) ==
                       [] OTHER -> FALSE
     [] s = 47 -> n >= 4
     [] s = 49 -> n >= 4 /\ r[2] < 128
-    [] s \in {52, 53} -> n >= 3 /\ Lo(r[2]) = 0 /\ Hi(r[2]) >= 1 /\ n - 2 <= Hi(r[2])
+    [] s \in {52, 53} -> n >= 3 /\ Lo(r[2]) = 0 /\ Hi(r[2]) >= 1 /\ n - 2 = Hi(r[2])
     [] s = 54 -> n >= 2
     [] s = 55 -> n >= 1
     [] OTHER  -> FALSE
@@ -192,7 +192,7 @@ Spec == Init /\ [][Next]_vars /\ WF_vars(Next)
 
 ---------------------------------------------------------------------------
 TypeOK ==
-  /\ cs \in Cases
+  /\ cs.raw \in BOOLEAN /\ Len(cs.req) >= 1 /\ Len(cs.reply) >= 1
   /\ pc \in {"ParseRequest", "ParseResponse", "NegativeFallback", "PositiveFallback",
              "RawRequestFallback", "Matches", "Done", "Reported"}
   /\ preq \in {"?", "Typed", "Raw"}
